@@ -11,9 +11,13 @@ InsertPadding and operand-dependent instruction sizes), wrappers PassLoop_MC / _
       on the algorithm of the pinned tree (Fixed = FALSE) TLC must find the padding livelock (lasso printed in
       the evidence) and must prove LivelockOnlyWhenPatched; with option -Y (ThrowErrors) TLC finds a second
       livelock (unsolvable program, error discarded every other pass) that the real asl reproduces.
+    A second alphabet per class (PassLoop_Gen_self*.cfg, <= 3 items) adds reference statements that carry a label on
+    their own line and refer to that very label, to the PC symbol or to a difference (la: dc.w la / dc.w * /
+    tab: dc.w r0-tab / la: bra la): the statement that triggers the padding is itself the reference.
 (G) TLC (PassLoop_Gen) exports every program up to the bound once, plus simulated longer ones (<= 12 items,
     3 labels), each with the model's prediction.  Every program is rendered for the dialects of its class
-    (68000 | 6809, 68HC11, 6502 | 8086; label spellings and mnemonics seed-chosen), assembled by the real asl
+    (68000 | 6809, 68HC11, 6502 | 8086; MSP430 .byte/.word/nop for the padded self-reference programs; label
+    spellings and mnemonics seed-chosen), assembled by the real asl
     under ASL_VERIF_MAX_PASSES=40, and again with ASL_VERIF_EXTRA_PASSES=1.  The code file is decoded item by
     item (marker byte pair after each label, opcode table per reference kind) into a layout that goes back to
     TLC (PassLoop_Obs), which evaluates the declarative predicate Valid on it.
@@ -47,6 +51,9 @@ Mutations of the real code tried on scratch copies (selftest/C01-*.diff, `./chec
   m5 Repass on a changed constant only in passes 1 and 2           suite  1 fail   caught: Obs 'value', trace 'repass'
   m6 68000 IsDisp8 accepts +128                                    suite  0 fail   caught: Obs 'value' (bra +128 -> $80)
   m7 68HC11 direct addressing chosen for address $100              suite  0 fail   caught: Obs 'value' (origin 250)
+  m8 68000 DC.W/DC.L on an odd address evaluates its operand       suite  0 fail   caught: Obs 'value' on
+     before InsertPadding (label of the same line / PC symbol                      fill 1 / la: dc.w la, dc.w *,
+     encoded unpadded)                                                             la: dc.w lb-la (self classes)
   fix the three proposed repairs applied                                           check exits 0 without KNOWN-FINDING
 A run on the unchanged tree exits 0 with the KNOWN-FINDING lines listed above.
 """
